@@ -63,7 +63,7 @@ def worker(indices):
     M = rel.mapping()
     rng = random.Random(SEED * 7919 + (indices[0] if indices else 0))
     viol, mach = [], []
-    cnt = dict(cases=0, api_runs=0, nontrivial=0, entity_rows=0)
+    cnt = dict(cases=0, api_runs=0, nontrivial=0, entity_rows=0, sqlite_exists_quirk=0)
     for ci in indices:
         c = CASES[ci]
         q, ds = c["q"], c["ds"]
@@ -101,8 +101,21 @@ def worker(indices):
         if bad_ent:
             mach.append("calibration: Core entity columns %r, spec %r (%r)" % (bad_ent[1], bad_ent[2], q))
             continue
-        core_sorted = core if ordered else sorted(core, key=repr)
         has_ent = q["sel"] in oq.ENTITY_SELS
+        # SQLite 3.40 evaluates EXISTS (SELECT DISTINCT .. OFFSET n) without the DISTINCT (named deviation SqliteExistsDistinctOffset):
+        # exists is what the backend answers for the CORE statement; anywhere else a disagreement with the spec is a calibration failure
+        with rel.engine.connect() as conn:
+            core_exists = bool(conn.scalar(sa.select(cstmt.exists())))
+            core_count = conn.scalar(sa.select(sa.func.count()).select_from(cstmt.subquery()))
+        if core_count != c["count"]:
+            mach.append("calibration: Core count(*) %r, spec %r for q=%r ds=%r" % (core_count, c["count"], q, ds))
+            continue
+        if core_exists != c["exists"]:
+            if q["dist"] and q["off"] != -1 and core_exists:
+                cnt["sqlite_exists_quirk"] += 1
+            else:
+                mach.append("calibration: Core EXISTS %r, spec %r for q=%r ds=%r" % (core_exists, c["exists"], q, ds))
+                continue
 
         def compare(api, rows, expected, with_entities=True, force_unordered=False):
             """rows: ORM result rows (tuples of entities / values)"""
@@ -136,13 +149,13 @@ def worker(indices):
                 stmt = build(q, M, sa, orm, alias, ds)
                 with orm.Session(rel.engine) as s:
                     compare("execute" + tag, s.execute(stmt).all(), exp)
-                if alias and rng.random() < 0.5:
-                    continue
-                with orm.Session(rel.engine) as s:
-                    compare("unique" + tag, s.execute(stmt).unique().all(), uq)
                 with orm.Session(rel.engine) as s:
                     got = s.scalars(stmt).all()
                     compare("scalars" + tag, [(x,) for x in got], [t[:1] for t in exp], with_entities=False)
+                if alias:
+                    continue
+                with orm.Session(rel.engine) as s:
+                    compare("unique" + tag, s.execute(stmt).unique().all(), uq)
                 with orm.Session(rel.engine) as s:
                     cnt["api_runs"] += 2
                     n = s.scalar(sa.select(sa.func.count()).select_from(stmt.subquery()))
@@ -150,7 +163,7 @@ def worker(indices):
                         viol.append((_sig(q, "count-subquery" + tag, kind="count"),
                                      "SELECT count(*) FROM (stmt) = %r, rows returned %d; q=%r ds=%r" % (n, c["count"], q, ds), dict(case=c)))
                     e = s.scalar(sa.select(stmt.exists()))
-                    if bool(e) != c["exists"]:
+                    if bool(e) != core_exists:
                         viol.append((_sig(q, "select-exists" + tag, kind="exists"),
                                      "SELECT EXISTS (stmt) = %r, rows returned %d; q=%r ds=%r" % (e, c["count"], q, ds), dict(case=c)))
             # ---- legacy Query
@@ -164,7 +177,7 @@ def worker(indices):
                     viol.append((_sig(q, "Query.count", kind="count"),
                                  "Query.count() = %r, rows of the query %d; q=%r ds=%r" % (n, c["count"], q, ds), dict(case=c)))
                 e = s.query(qy.exists()).scalar()
-                if bool(e) != c["exists"]:
+                if bool(e) != core_exists:
                     viol.append((_sig(q, "Query.exists", kind="exists"),
                                  "Query.exists() = %r, rows of the query %d; q=%r ds=%r" % (e, c["count"], q, ds), dict(case=c)))
                 if ordered and q["lim"] != 0:
@@ -221,14 +234,14 @@ def core_union(q, rel, sa):
 
 
 def plans_for(chk):
-    base = dict(NP=3, NC=3, NG=2, MaxV=2, K=1, NQ=1, Roots='{"P", "C"}', GridSel='"all"', NH=1, Mixed=False)
+    base = dict(oq.BASE)
+    sc = oq.scale()
     if chk.quick:
-        return ([("InitGrid", dict(base, Roots='{"%s"}' % r, GridSel='"%s"' % g)) for r in "PC" for g in ("forms", "mods")] +
-                [("InitRandom", dict(base, NQ=700)) for _ in range(4)])
-    return ([("InitGrid", dict(base, K=2, Roots='{"%s"}' % r, GridSel='"%s"' % g)) for r in "PC" for g in ("forms", "mods")] +
-            [("InitRandom", dict(base, NQ=4000)) for _ in range(8)] +
-            [("InitRandom", dict(base, NQ=2000, NP=2, NC=3, NG=3)) for _ in range(2)] +
-            [("InitExh", dict(base, NP=2, NC=2, NG=1, MaxV=1, K=2))])
+        return [("InitPart1", dict(base, K=1, GridKeep=max(1, int(30 * sc)), NQ=int(1800 * sc)))]
+    return [("InitPart1", dict(base, K=2, NQ=int(12000 * sc))),
+            ("InitPart1", dict(base, K=1, NQ=int(12000 * sc))),
+            ("InitPart1", dict(base, K=0, NQ=int(5000 * sc), NP=2, NC=3, NG=3)),
+            ("InitExh", dict(base, NP=2, NC=2, NG=1, MaxV=1, K=2))]
 
 
 def main(chk):
@@ -239,7 +252,7 @@ def main(chk):
     rng.shuffle(cases)
     CASES = cases
     res = oq.pmap(worker, len(cases))
-    tot = dict(cases=0, api_runs=0, nontrivial=0, entity_rows=0)
+    tot = dict(cases=0, api_runs=0, nontrivial=0, entity_rows=0, sqlite_exists_quirk=0)
     for viol, mach, cnt in res:
         if mach:
             chk.machinery("oracle calibration failed (%d cases), first: %s" % (sum(len(m) for _, m, _ in res), mach[0]))
@@ -263,7 +276,7 @@ def main(chk):
     return chk.finish(
         dict(states=sum(r["distinct"] for r in runs), transitions=sum(r["generated"] for r in runs),
              traces_validated_against_impl=tot["cases"], evaluations=tot["api_runs"], distinct_nontrivial=tot["nontrivial"],
-             entity_rows_compared=tot["entity_rows"], samples=samples, tlc_runs=runs, form_coverage=cov, exhaustive=False,
+             entity_rows_compared=tot["entity_rows"], sqlite_exists_quirk=tot["sqlite_exists_quirk"], samples=samples, tlc_runs=runs, form_coverage=cov, exhaustive=False,
              rule="one case per TLC initial state (data set x query); non-trivial = non-empty result of a query with a WHERE or JOIN form; each "
                   "case executed as Core (calibration) and through 10 ORM API paths, plain and with aliased entities",
              checker_cmd="tlc OrmQuery.tla (INIT InitGrid|InitRandom|InitExh, INVARIANT Theorems)"),
